@@ -103,8 +103,8 @@ def _patch():
         port = server_address[1]
         self._port = port
         self._stop = threading.Event()
-        if w.outcome.get(port, 'up') != 'up':
-            raise OSError(errno.EACCES, 'Permission denied')
+        if not w.comes_up(port):
+            raise OSError(errno.EACCES, 'Permission denied')     # (EADDRINUSE would be retried for 9 s)
         w.listening.add(port)
 
     def serve_forever(self, poll_interval=0.5):
@@ -122,7 +122,7 @@ def _patch():
 
     def serve(handler, host, port, **kw):
         w = CUR[0]
-        if w.outcome.get(port, 'up') != 'up':
+        if not w.comes_up(port):
             raise OSError(errno.EACCES, 'Permission denied')
         w.ws_listening.add(port)
         return FakeWS(port)
@@ -143,8 +143,8 @@ def _patch():
 
 
 class World:
-    """cfg: {'ifaces': [kind...], 'eq', 'descr', 'bare_main', 'arg_main', 'salt'}; kind in tcp_up tcp_fail ws_up
-    ws_fail"""
+    """cfg: {'schemes': [tcp|ws ...], 'ups': [[index of an interface that comes up, ...] per (re)start],
+    'eq', 'descr', 'bare_main', 'arg_main', 'salt'}"""
 
     def __init__(self, cfg, sockmod):
         env.boot()
@@ -159,9 +159,9 @@ class World:
         self.gen = 0
         self.error = ''
         rot = cfg.get('salt', 0) % len(PORTS)
-        self.ports = (PORTS[rot:] + PORTS[:rot])[:len(cfg['ifaces'])]
-        self.outcome = {p: ('up' if k.endswith('up') else 'fail') for p, k in zip(self.ports, cfg['ifaces'])}
-        uris = ['%s://%d' % (k.split('_')[0], p) for p, k in zip(self.ports, cfg['ifaces'])]
+        self.ports = (PORTS[rot:] + PORTS[:rot])[:len(cfg['schemes'])]
+        self.starts = 0                 # (re)starts initiated: selects the failure script of the bind layer
+        uris = ['%s://%d' % (k, p) for p, k in zip(self.ports, cfg['schemes'])]
         if cfg.get('bare_main') and uris[0].startswith('tcp://'):
             uris[0] = uris[0][6:]
         self.tmp = tempfile.mkdtemp(prefix='c19srv-')
@@ -190,6 +190,11 @@ class World:
             signal.signal(signal.SIGTERM, handlers[1])
         self.thread = None
 
+    def comes_up(self, port):
+        ups = self.cfg['ups']
+        now = ups[min(self.starts, len(ups)) - 1] if ups else []
+        return port in self.ports and self.ports.index(port) + 1 in now
+
     def descr(self, gen):
         return 'g%d %s' % (gen, self.cfg['descr'])
 
@@ -217,12 +222,14 @@ class World:
         return False
 
     def boot(self):
+        self.starts = 1
         self.thread = threading.Thread(target=self._run, daemon=True)
         self.thread.start()
         return self._wait_up(0)
 
     def restart(self):
         n = len(self.sockets)
+        self.starts += 1
         self.srv.restart()
         return self._wait_up(n)
 
